@@ -1,0 +1,11 @@
+// +build !verif
+
+package ports
+
+import "sync"
+
+func verifYield(site string) {}
+
+func verifLock(l *sync.RWMutex, site string) {}
+
+func verifEphemeralOffset(offset, count uint16) uint16 { return offset }
